@@ -131,7 +131,7 @@ def _b_val(m, e):
     raise symx.HarnessError(f"cannot evaluate bool {e}")
 
 def _s_val(m, c):
-    if type(c).__name__ in ("StrfToken", "ReToken"): return UF_WILDCARD
+    if type(c).__name__ in ("StrfToken", "ReToken", "StrFnToken"): return UF_WILDCARD
     if isinstance(c, SymStr): c = c.c
     if isinstance(c, str): return c
     if m is None:
@@ -172,7 +172,7 @@ def encode(t, m=None):
         if unit in ("s", "ms") or (key == "m" and unit in ("D", "h", "m")):
             v *= symx._UNIT_FACTOR[unit]; unit = "us"
         return {key: v, "u": unit}
-    if isinstance(t, (SymStr, StrCell)) or type(t).__name__ in ("StrfToken", "ReToken"): return _s_val(m, t)
+    if isinstance(t, (SymStr, StrCell)) or type(t).__name__ in ("StrfToken", "ReToken", "StrFnToken"): return _s_val(m, t)
     if isinstance(t, (bool, str)): return t
     if isinstance(t, int): return t
     if isinstance(t, float):
